@@ -193,7 +193,7 @@ fn read_only_check_inner(bytes: &[u8], script: &[BOp], rep: &mut CaseReport) -> 
                 return Err(f);
             }
             drop(c);
-            if let Err(f) = orphaned_handles(bytes, strict, &mut st, &mut trace) {
+            if let Err(f) = orphaned_handles(bytes, strict, false, &mut st, &mut trace) {
                 rep.trace = trace;
                 return Err(f);
             }
